@@ -1,4 +1,4 @@
-"""C08 -- activation and deactivation boundaries (sequential histories only)
+"""C08 -- activation and deactivation boundaries (sequential histories; thread schedules: C08_races.py)
 
 real Dispatcher subscription tables, activate/deactivate/*IDN?/disconnect with
 global, module and parameter scopes on two connections, interleaved (in
@@ -11,8 +11,7 @@ FUNCTIONS = ['frappy.protocol.dispatcher.Dispatcher.{handle_activate,handle_deac
              'remove_connection,broadcast_event,announce_update}', 'frappy.protocol.dispatcher.make_update', 'frappy.modulebase.Module.announceUpdate']
 ASSUMPTIONS = ['histories of 3 (quick) / 4 (thorough) steps chosen by symbolic selectors out of activate/deactivate x {global, m, mm, m:_a, mm:_a, '
                'bad names}, *IDN?, disconnect on 2 connections and updates of 4 parameters with symbolic values',
-               'SEQUENTIAL histories only: the interleaving of an activation with a concurrently running update (stale snapshot window) needs '
-               'thread schedules and is outside what this technique can decide here - that half of the property is not claimed']
+               'sequential histories here; an activation / deactivation racing with concurrently running updates is explored by harness/C08_races.py']
 REQUIRED_TAGS = ['delivered', 'not-delivered', 'snapshot', 'refused']
 LIMITS = {'quick': {'max_paths': 60000, 'max_s': 150}, 'thorough': {'max_paths': 900000, 'max_s': 1200}}
 
